@@ -37,7 +37,7 @@ Extraction "model.ml"
   Spectrum.marginalize Spectrum.keep_to_remove Spectrum.normalize Spectrum.mask_monomorphic
   Spectrum.folded_cells Spectrum.fold0 Spectrum.mirror_arr Spectrum.spectrum_sum Spectrum.marg_spec
   Project.binomN Project.hyp Project.project Project.project_spec
-  Create.classify Create.classify_v0 Container.vcf_field_gt Container.bcf_field_gt Container.render_gt Container.hts_encode Container.parse_gt Create.build_map Create.map_shape Create.build_reader Create.read_site
+  Create.classify Create.classify_v0 Container.vcf_field_gt Container.vcf_sample_gt Container.bcf_field_gt Container.render_gt Container.hts_encode Container.parse_gt Create.build_map Create.map_shape Create.build_reader Create.read_site
   SampleParse.parse_samples_file SampleParse.parse_samples_inline
   Create.init_sstate Create.create_run Create.rec_counts Create.rec_complete
   Stat.calculate Stat.view_run
